@@ -103,6 +103,47 @@ func SelfTest() error {
 	if dl == 0 || dl == runs {
 		return fmt.Errorf("rwmutex canary: recursive read lock deadlocked with a writer in %d of %d runs (want some, not all)", dl, runs)
 	}
+	// Cond canary: a producer/consumer pair over a simulated Cond finishes in
+	// every schedule and is race-free; with the Signal removed it deadlocks.
+	for mode := 0; mode < 2; mode++ {
+		bad := 0
+		for i := 0; i < runs; i++ {
+			var mu simsync.Mutex
+			cv := simsync.NewCond(&mu)
+			ready, val := false, 0
+			r := sched.Run(ch, sched.Config{}, []func(int){
+				func(int) {
+					mu.Lock()
+					for !ready {
+						cv.Wait()
+					}
+					val++
+					mu.Unlock()
+				},
+				func(int) {
+					mu.Lock()
+					ready = true
+					val++
+					mu.Unlock()
+					if mode == 0 {
+						cv.Signal()
+					}
+				},
+			})
+			if mode == 0 && (r.Deadlock || r.Races > 0 || len(r.Panics) > 0) {
+				bad++
+			}
+			if mode == 1 && r.Deadlock {
+				bad++
+			}
+		}
+		if mode == 0 && bad != 0 {
+			return fmt.Errorf("cond canary: correct producer/consumer failed in %d of %d runs", bad, runs)
+		}
+		if mode == 1 && bad == 0 {
+			return fmt.Errorf("cond canary: a missing Signal never deadlocked in %d runs", runs)
+		}
+	}
 	// Pool canaries: objects passed through a simulated pool carry the
 	// Put-before-Get edge (proper use is never reported) and nothing more (a
 	// write after Put is reported when another thread received the object).
